@@ -128,6 +128,7 @@ def gen_history(rng, tier):
     next_id = [1]
     cur_cap = cap
     n_iters = 0
+    with_iters = rng.random() < 0.65      # histories without iterators continue on a store rebuilt from its raw dict instead
     for _ in range(nops):
         r = rng.random()
         if r < 0.55:
@@ -165,6 +166,8 @@ def gen_history(rng, tier):
             ops.append(["resize", c])
             if c > cur_cap:
                 cur_cap = c
+        elif r < 0.83 and not with_iters:
+            ops.append(["reload", rng.choice(["mem", "npz", "npz"])])
         elif r < 0.83:
             ops.append(["iter_new"])
             n_iters += 1
@@ -219,6 +222,12 @@ def observe(store, layout, orng, cap_hint):
                     ln = s if isinstance(s, int) else s[0]
                     vals[n] = np.array([df["%s_%d" % (n, j)].iloc[k] for j in range(ln)], dtype=dt)
             data.append([int(df["index"].iloc[k]), dec_row(layout, vals)])
+    # whatever happened to the store (resize, reload, clear): the fields keep their declared dtypes
+    dd = store.data()
+    for n, _s, dt in layout:
+        want_dt = np.dtype(object) if dt is object else np.dtype(dt)
+        if dd[n].dtype != want_dt:
+            data = "field %s has dtype %s, declared %s" % (n, dd[n].dtype, want_dt)
     cap = int(store.capacity)
     query = [orng.randrange(cap) for _ in range(orng.randint(0, 5))] if cap else []
     if cap and orng.random() < 0.15:
@@ -320,6 +329,18 @@ def run_impl(case):
                 r = [err_code(e)]
             mops.append([6, op[1]])
             outs.append(r)
+        elif op[0] == "reload":
+            # "as_raw_dict / from_raw_dict reproduce an equivalent store": the rest of the history runs on the reproduced store
+            # (rebuilt in memory, or after the documented np.savez / np.load round trip); the model just carries on
+            raw = store.as_raw_dict()
+            if op[1] == "npz":
+                import io
+                buf = io.BytesIO()
+                np.savez(buf, **raw)
+                buf.seek(0)
+                with np.load(buf, allow_pickle=True) as z:
+                    raw = {k: z[k] for k in z.files}
+            store = ArrayStore.from_raw_dict(raw)
         elif op[0] == "raw":
             s2 = ArrayStore.from_raw_dict(store.as_raw_dict())
             mops.append([7])
@@ -391,6 +412,10 @@ def oracle(case):
         if ol != order:
             return "%s: occupied_list %s not in first-filled order %s" % (tag, ol, order)
         d = store.data()
+        for n_, _s, dt_ in layout:
+            want_dt = np.dtype(object) if dt_ is object else np.dtype(dt_)
+            if d[n_].dtype != want_dt:
+                return "%s: field %s has dtype %s, declared %s" % (tag, n_, d[n_].dtype, want_dt)
         got = {int(d["index"][k]): dec_row(layout, {n: d[n][k] for n in names}) for k in range(len(ol))}
         if got != ref:
             return "%s: data() %s differs from what was written %s" % (tag, got, ref)
@@ -442,6 +467,16 @@ def oracle(case):
                 store.resize(op[1])
             except ValueError:
                 pass
+        elif op[0] == "reload":
+            raw = store.as_raw_dict()
+            if op[1] == "npz":
+                import io
+                buf = io.BytesIO()
+                np.savez(buf, **raw)
+                buf.seek(0)
+                with np.load(buf, allow_pickle=True) as z:
+                    raw = {k_: z[k_] for k_ in z.files}
+            store = ArrayStore.from_raw_dict(raw)
         e = chk("after op %d %s" % (k, op[0]))
         if e:
             return e
@@ -490,10 +525,11 @@ def check(rep, tier, seed, driver):
     import os
     from common import CORPUS
     rng = random.Random(seed)
-    n = 400 if tier == "quick" else 6000
+    n = 1500 if tier == "quick" else 20000
     rep.rule = ("random ArrayStore histories (add with arbitrary/repeated/unsorted indices and transform chains, malformed adds, "
                 "clear, resize, iterators, raw round trip) over 5 field layouts and capacities 0..100; a history is non-trivial "
-                "when it contains a valid add naming an index twice AND a clear followed by a non-empty add; distinct by hash of the history")
+                "when it contains a valid add naming an index twice AND a clear followed by a non-empty add; distinct by hash of the history" 
+                "; plus: adds whose last numeric field has rows of the wrong shape; histories continued on a store rebuilt from as_raw_dict (in memory or through np.savez/np.load); declared dtypes after every operation")
     cases = []
     cdir = os.path.join(CORPUS, "C13")
     if os.path.isdir(cdir):
